@@ -169,8 +169,14 @@ func (f *Frame) execInstr(in ssa.Instruction, reach string, st *State) {
 		for i := len(f.defers) - 1; i >= 0; i-- {
 			d := f.defers[i]
 			// the deferred call runs iff its Defer instruction was reached.
+			if !blockReaches(d.call.Block(), x.Block()) {
+				// registered on a path that cannot lead here
+				continue
+			}
 			before := st.clone()
+			f.runningDefers = true
 			f.execCall(nil, d.call.Common(), And(reach, d.reach), st)
+			f.runningDefers = false
 			if d.reach != reach && d.reach != "true" {
 				// merge: state changes only if d.reach held
 				merged := f.mergeStates([]inEdge{{nil, And(reach, d.reach), st}, {nil, And(reach, Not(d.reach)), before}})
@@ -198,6 +204,14 @@ func (f *Frame) execInstr(in ssa.Instruction, reach string, st *State) {
 		case *types.Array:
 			f.oblig("bounds", x.Pos(), f.srcTextOr(x.Pos(), "index"), reach, fmt.Sprintf("(and (<= 0 %s) (< %s %d))", iv, iv, u.Len()))
 			f.define(x, fmt.Sprintf("(select %s %s)", xv, iv))
+		case *types.Basic:
+			// s[i] on a string: the i-th byte
+			if u.Info()&types.IsString == 0 {
+				f.bail("Index on %s", x.X.Type())
+			}
+			f.oblig("bounds", x.Pos(), f.srcTextOr(x.Pos(), "index"), reach, fmt.Sprintf("(and (<= 0 %s) (< %s (slen %s)))", iv, iv, xv))
+			b := f.define(x, fmt.Sprintf("(sat %s %s)", xv, iv))
+			ctx.Fact(fmt.Sprintf("(and (<= 0 %s) (<= %s 255))", b, b))
 		default:
 			f.bail("Index on %s", x.X.Type())
 		}
@@ -1101,4 +1115,26 @@ func privateCell(x *ssa.Alloc) bool {
 		return true
 	}
 	return ok(x, *x.Referrers(), 0)
+}
+
+// blockReaches: there is a control-flow path from block a to block b (or a == b).
+func blockReaches(a, b *ssa.BasicBlock) bool {
+	if a == nil || b == nil {
+		return true
+	}
+	seen := map[*ssa.BasicBlock]bool{}
+	stack := []*ssa.BasicBlock{a}
+	for len(stack) > 0 {
+		x := stack[len(stack)-1]
+		stack = stack[:len(stack)-1]
+		if x == b {
+			return true
+		}
+		if seen[x] {
+			continue
+		}
+		seen[x] = true
+		stack = append(stack, x.Succs...)
+	}
+	return false
 }
